@@ -98,6 +98,7 @@ func (e Ev) Coq() string {
 type Obs struct {
 	Events      []Ev
 	Conns, Idle int
+	Open        int // fake sockets handed to the transport and not closed (by either side's Close)
 }
 
 func (o Obs) Coq() string {
@@ -105,7 +106,7 @@ func (o Obs) Coq() string {
 	for i, e := range o.Events {
 		es[i] = e.Coq()
 	}
-	return hx.App("mkVObs", hx.List(es), hx.Ni(o.Conns), hx.Ni(o.Idle))
+	return hx.App("mkVObs", hx.List(es), hx.Ni(o.Conns), hx.Ni(o.Idle), hx.Ni(o.Open))
 }
 
 type Script struct{ Actions []Action }
@@ -236,20 +237,18 @@ func (w *world) dial(ctx context.Context) (transport.NetConn, error) {
 	w.dials[c] = ch
 	w.mu.Unlock()
 	w.events <- Ev{Kind: 1, C: c}
-	select {
-	case ok := <-ch:
-		if !ok {
-			return nil, errDial
-		}
-		w.mu.Lock()
-		f := &fconn{id: len(w.conns), w: w}
-		f.cond = sync.NewCond(&f.mu)
-		w.conns = append(w.conns, f)
-		w.mu.Unlock()
-		return f, nil
-	case <-ctx.Done():
-		return nil, ctx.Err()
+	// The dial ends when the script says so, also after the transport cancelled its context: a real dialer
+	// can complete successfully at the very moment it is cancelled, and the transport then owns the socket.
+	ok := <-ch
+	if !ok {
+		return nil, errDial
 	}
+	w.mu.Lock()
+	f := &fconn{id: len(w.conns), w: w}
+	f.cond = sync.NewCond(&f.mu)
+	w.conns = append(w.conns, f)
+	w.mu.Unlock()
+	return f, nil
 }
 
 // ---------- executor ----------
@@ -486,7 +485,16 @@ func Run(next func(v *View) *Action) (Script, []Obs, []int) {
 		deadline := time.Now().Add(wait)
 		for {
 			o.Conns, o.Idle = t.VerifConnCounts()
-			if wantIdle == nil || wantIdle(o.Conns, o.Idle) || time.Now().After(deadline) {
+			o.Open = 0
+			w.mu.Lock()
+			for _, f := range w.conns {
+				if !f.isClosed() {
+					o.Open++
+				}
+			}
+			w.mu.Unlock()
+			// at rest every open socket is tracked by the transport and every tracked one is open
+			if ((wantIdle == nil || wantIdle(o.Conns, o.Idle)) && o.Open == o.Conns) || time.Now().After(deadline) {
 				return
 			}
 			time.Sleep(100 * time.Microsecond)
@@ -751,7 +759,7 @@ func Run(next func(v *View) *Action) (Script, []Obs, []int) {
 				}
 			}
 			sort.SliceStable(o.Events, func(i, j int) bool { return o.Events[i].C < o.Events[j].C })
-			o.Conns, o.Idle = 99999, 99999
+			o.Conns, o.Idle, o.Open = 99999, 99999, 99999
 			obs = append(obs, o)
 			continue
 		}
